@@ -5,6 +5,8 @@
 From Coq Require Import List NArith ZArith Bool.
 From LW Require Import Base.Outcome Base.Bytes Mac.Commands Mac.Stream Frame.Model Frame.Checked.
 From LW Require Frame.TotalProofs Mac.TotalProofs.
+From LW Require App.ClockSync App.Multicast App.FragCmds App.FwMgmt App.ClockSyncProofs App.MulticastProofs App.FragCmdsProofs App.FwMgmtProofs App.DecodeTotalProofs.
+From LW Require Mem.Heap Mem.Alias Mem.AliasProofs.
 From LWGen Require Import RegistryGen.
 Import ListNotations.
 Open Scope N_scope.
@@ -38,6 +40,48 @@ Print Assumptions C09_stream_total.
 Theorem C09_mac_payload_total : forall k data, dec k data <> Panic /\ dec k data <> OutOfFuel.
 Proof. exact Mac.TotalProofs.dec_total. Qed.
 Print Assumptions C09_mac_payload_total.
+
+(* join-accept payload and CFList decoders (value model; every index guarded by the length tests) *)
+Theorem C09_joinaccept_cflist_total : forall data,
+  (joinaccept_unmarshal data <> Panic /\ joinaccept_unmarshal data <> OutOfFuel) /\
+  (cflist_unmarshal data <> Panic /\ cflist_unmarshal data <> OutOfFuel).
+Proof.
+  intros data. split.
+  - unfold joinaccept_unmarshal. destruct (_ && _); [split; discriminate|].
+    destruct (dec_dlsettings _) as [[? ?] ?].
+    destruct (Nat.eqb (length data) 28).
+    + unfold cflist_unmarshal. destruct (negb _); cbn [bind]; [split; discriminate|].
+      destruct (_ =? 1); cbn [bind]; split; discriminate.
+    + cbn [bind]. split; discriminate.
+  - unfold cflist_unmarshal. destruct (negb _); [split; discriminate|]. destruct (_ =? 1); split; discriminate.
+Qed.
+Print Assumptions C09_joinaccept_cflist_total.
+
+(* the four application-layer command decoders (single command and command stream,
+   both directions): no panic, and the stream loops terminate - theorems of the C18 models *)
+Theorem C09_applayer_total : forall up data,
+  (App.ClockSync.cmds_dec up data <> Panic /\ App.Multicast.cmds_dec up data <> Panic
+   /\ App.FragCmds.cmds_dec up data <> Panic /\ App.FwMgmt.cmds_dec up data <> Panic
+   /\ App.ClockSync.cmd_dec up data <> Panic /\ App.Multicast.cmd_dec up data <> Panic
+   /\ App.FragCmds.cmd_dec up data <> Panic /\ App.FwMgmt.cmd_dec up data <> Panic) /\
+  (App.ClockSync.cmds_dec up data <> OutOfFuel /\ App.Multicast.cmds_dec up data <> OutOfFuel
+   /\ App.FragCmds.cmds_dec up data <> OutOfFuel /\ App.FwMgmt.cmds_dec up data <> OutOfFuel).
+Proof.
+  intros up data. split; [exact (App.DecodeTotalProofs.decoders_no_panic up data)|].
+  split; [exact (App.ClockSyncProofs.stream_dec_terminates up data)|].
+  split; [exact (App.MulticastProofs.stream_dec_terminates up data)|].
+  split; [exact (App.FragCmdsProofs.stream_dec_terminates up data)|exact (App.FwMgmtProofs.stream_dec_terminates up data)].
+Qed.
+Print Assumptions C09_applayer_total.
+
+(* the decoders never write to the input buffer: heap-model theorem (every heap, every slice) *)
+Theorem C09_decoders_do_not_write_input : forall (data : Mem.Heap.slice) (h : Mem.Heap.heap),
+  Mem.AliasProofs.old_unchanged h (fst (Mem.Alias.h_phy_unmarshal data h)) /\
+  (forall r up, Mem.AliasProofs.old_unchanged h (fst (Mem.Alias.h_cmd_unmarshal r up data h))) /\
+  (forall r up pls, Mem.AliasProofs.old_unchanged h (fst (Mem.Alias.h_decode_cmds r up pls h))) /\
+  Mem.AliasProofs.old_unchanged h (fst (Mem.Alias.h_data_unmarshal data h)).
+Proof. exact Mem.AliasProofs.decoders_readonly. Qed.
+Print Assumptions C09_decoders_do_not_write_input.
 
 (* before fix 697fad2 a negative registered size made the loop diverge: the model of
    the unrepaired registration (size -1 stored) runs out of any fuel *)
